@@ -645,7 +645,7 @@ func grpcStatusTrailers(err *connect.Error) []*conformancev1.Header {
 		},
 		{
 			Name:  "grpc-message",
-			Value: []string{grpcutil.PercentEncodeMessage(err.Message())},
+			Value: []string{grpcMessageTrailerValue(err.Message())},
 		},
 	}
 	if len(err.Details()) > 0 {
@@ -669,6 +669,23 @@ func grpcStatusTrailers(err *connect.Error) []*conformancev1.Header {
 		}
 	}
 	return trailers
+}
+
+// grpcMessageTrailerValue returns the percent-encoded "grpc-message" value for
+// the given message. A space at either end is also percent-encoded: optional
+// whitespace around a field value is not part of the value (it is stripped from
+// the trailers block of the gRPC-Web protocol and by HTTP/1.1 hops), so it would
+// otherwise be lost and the message would no longer agree with the one in the
+// "grpc-status-details-bin" trailer.
+func grpcMessageTrailerValue(msg string) string {
+	encoded := grpcutil.PercentEncodeMessage(msg)
+	if strings.HasPrefix(encoded, " ") {
+		encoded = "%20" + encoded[1:]
+	}
+	if strings.HasSuffix(encoded, " ") {
+		encoded = encoded[:len(encoded)-1] + "%20"
+	}
+	return encoded
 }
 
 func grpcWebStatusEndStream(err *connect.Error, trailers []*conformancev1.Header) string {
